@@ -1107,6 +1107,29 @@ pub fn run() {
         };
         check_neutral("exact-scalars-exhaustive", i, r, &n);
     });
+    // the same form with exponents far outside anything a rewrite produces (the statement has
+    // no bound): around 2^15, 2^16, 2^20, 2^30
+    const HUGE_P: [i64; 14] = [1000, 32766, 32767, 32768, 32769, 40001, 65535, 65536, 65537, 1 << 20, (1 << 20) + 1, 1 << 28, (1 << 30) - 1, 1 << 30];
+    par_cases("exact-scalars-huge-exponents", HUGE_P.len() * 2 * 8, move |r, i| {
+        let i = i as usize;
+        let p = HUGE_P[i / 16] * if (i / 8) % 2 == 0 { 1 } else { -1 };
+        let k = (i % 8) as i64;
+        let s = Scalar4::sqrt2_pow(p as i32) * Scalar4::from_phase(Rational64::new(k, 4));
+        if exact_form(&r_of_scalar(&s)) != Some((p, k)) {
+            ctx().inconclusive("scalar-constructor-gave-unexpected-value", json!({"p": p, "k": k, "got": scalar_json(&s)}));
+            return;
+        }
+        let n = Neutral {
+            verts: vec![NV { kind: VType::B, ph: (0, 1), x: 0.0, y: 0.0 }, NV { kind: VType::Z, ph: (1, 4), x: 1.0, y: 0.0 }, NV { kind: VType::B, ph: (0, 1), x: 2.0, y: 0.0 }],
+            edges: vec![(0, 1, EType::N), (1, 2, EType::H)],
+            inputs: vec![0],
+            outputs: vec![2],
+            scalar: s,
+            scalar_src: "hand-exact".into(),
+            coord_mode: "unique-grid",
+        };
+        check_neutral("exact-scalars-huge-exponents", i as u64, r, &n);
+    });
     c.extra("exact_scalars_exhaustive", json!({"p_range": [-pmax, pmax], "k_range": [0, 7], "cases": total, "completed": !c.out_of_time()}));
     c.extra("exhaustive", json!(false));
 }
